@@ -159,7 +159,10 @@ def check(ctx: Ctx) -> None:
             g = next((a for a in ancestors(c) if isinstance(a, ast.If)), None)
             ok = g is not None and "any(" in src(g.test) and groups in src(g.test) and f"MessageType.{T}" in src(g.test) and isinstance(g.test, ast.BoolOp) \
                 and isinstance(g.test.op, ast.And)
-            ctx.check(ok, "ROUTE", f"{FN}: {T} accepted only from tracks that belong to a group", function=FN,
+            from ..astutil import extra_conditions
+            more = extra_conditions(c, g.test if g is not None else None, allow=lambda t, holds: not holds and "message_type" in src(t), stop=track_loop)
+            ok = ok and not more
+            ctx.check(ok, "ROUTE", f"{FN}: {T} accepted from exactly the tracks that belong to a group", function=FN,
                       construct=f"{T} taken from tracks outside every group", message=short(getattr(g, "test", None), 90), file=fi.file, node=c)
     # skip rule
     skip = next((s for s in track_loop.body if isinstance(s, ast.If) and any(isinstance(x, ast.Continue) for x in s.body)), None)
